@@ -73,6 +73,23 @@ type Conn struct {
 	// CloseErr, when set, is returned by the first Close although the connection
 	// does get closed (like a TLS connection failing to send close_notify).
 	CloseErr error
+
+	// WriteErrTimeout makes the injected write failure (FailWritesAfter) a deadline
+	// expiry (os.ErrDeadlineExceeded) instead of a reset: a blocked write that timed
+	// out after part of the data went out.
+	WriteErrTimeout bool
+
+	stall          atomic.Bool   // writes block (peer not reading) until close or write deadline
+	stallWake      chan struct{} // closed on Close
+	stallOnce      sync.Once
+	stallCloseOnce sync.Once
+}
+
+// StallWrites makes every following Write block like a socket whose peer stopped
+// reading: it returns only when the connection is closed or the write deadline passes.
+func (c *Conn) StallWrites() {
+	c.stallOnce.Do(func() { c.stallWake = make(chan struct{}) })
+	c.stall.Store(true)
 }
 
 func NewConn() *Conn {
@@ -207,6 +224,21 @@ func (c *Conn) Read(p []byte) (int, error) {
 
 func (c *Conn) Write(p []byte) (int, error) {
 	c.gate("write")
+	if c.stall.Load() && !c.closed.Load() {
+		c.wmu.Lock()
+		dl := c.wdeadline
+		c.wmu.Unlock()
+		var timer <-chan time.Time
+		if !dl.IsZero() {
+			t := time.NewTimer(time.Until(dl))
+			defer t.Stop()
+			timer = t.C
+		}
+		select {
+		case <-c.stallWake:
+		case <-timer:
+		}
+	}
 	c.wmu.Lock()
 	rec := WriteRec{Seq: int(c.seq.Add(1)), Data: append([]byte(nil), p...), Attempt: append([]byte(nil), p...), At: time.Now()}
 	if c.closed.Load() {
@@ -231,7 +263,11 @@ func (c *Conn) Write(p []byte) (int, error) {
 		if n < 0 {
 			n = 0
 		}
-		err = &net.OpError{Op: "write", Net: "sim", Err: fmt.Errorf("connection reset by peer")}
+		if c.WriteErrTimeout {
+			err = &net.OpError{Op: "write", Net: "sim", Err: timeoutErr{}}
+		} else {
+			err = &net.OpError{Op: "write", Net: "sim", Err: fmt.Errorf("connection reset by peer")}
+		}
 		rec.Data = rec.Data[:n]
 		rec.Err = err
 	}
@@ -255,10 +291,16 @@ func (c *Conn) Close() error {
 	if c.closed.Swap(true) {
 		return &net.OpError{Op: "close", Net: "sim", Err: net.ErrClosed}
 	}
+	c.wakeStalled()
 	c.rmu.Lock()
 	c.signal()
 	c.rmu.Unlock()
 	return c.CloseErr
+}
+
+func (c *Conn) wakeStalled() {
+	c.stallOnce.Do(func() { c.stallWake = make(chan struct{}) })
+	c.stallCloseOnce.Do(func() { close(c.stallWake) })
 }
 
 func (c *Conn) LocalAddr() net.Addr {
@@ -303,6 +345,7 @@ func (c *Conn) Closed() bool { return c.closed.Load() }
 // ForceClose closes from the harness side (not counted as a client call).
 func (c *Conn) ForceClose() {
 	if !c.closed.Swap(true) {
+		c.wakeStalled()
 		c.rmu.Lock()
 		c.signal()
 		c.rmu.Unlock()
